@@ -121,6 +121,12 @@ func (fx *FX) evalExpr(env *Env, e Expr) Val {
 		if v, ok := env.lookup(x.Name); ok {
 			return v
 		}
+		switch x.Name {
+		case "rngpos":
+			return VInt{fx.rngPos}
+		case "rngpos0":
+			return VInt{fx.rngPos0}
+		}
 		if c, ok := fx.u.specConst(x.Name); ok {
 			return c
 		}
@@ -230,12 +236,18 @@ func (fx *FX) evalExpr(env *Env, e Expr) Val {
 			return VBool{or(parts...)}
 		}
 		qv := fmt.Sprintf("%s!q%d", x.Var, fx.nextQ())
-		body := fx.evalBool(env.with(x.Var, VInt{T{qv, SInt}}), x.Body)
+		var bv Val = VInt{T{qv, SInt}}
+		srt := "Int"
+		if x.VarSeq {
+			bv = VSeq{T{qv, SSeq}}
+			srt = "BSeq"
+		}
+		body := fx.evalBool(env.with(x.Var, bv), x.Body)
 		q := "forall"
 		if !x.All {
 			q = "exists"
 		}
-		return VBool{T{fmt.Sprintf("(%s ((%s Int)) %s)", q, qv, body.S), SBool}}
+		return VBool{T{fmt.Sprintf("(%s ((%s %s)) %s)", q, qv, srt, body.S), SBool}}
 	case ESel:
 		v := fx.evalExpr(env, x.X)
 		return fx.selectField(env, v, x.Name)
